@@ -57,5 +57,7 @@ SEEDED = [
     ("C18-11", "C18-PART"),
     ("C18-12", "C18-CACHE"),
     ("C18-13", "C18-PART"),
+    ("C18-14", "C18-CACHE"),
+    ("C18-15", "C18-PART"),
 ]
 MUTANTS = list(MUTANTS) + [_P("seed-" + sid, _os.path.join(_SEEDS, sid, "patch.diff"), rule) for sid, rule in SEEDED if _os.path.exists(_os.path.join(_SEEDS, sid, "patch.diff"))]
